@@ -305,6 +305,91 @@ theorem sumBy_indicator (A : List Addr) (hA : A.Nodup) (x : Addr) (hx : x ∈ A)
         | tail _ h => exact h
       rw [ih hnd.2 hx']; simp [hyx]
 
+/-! ### effects that cannot lower a balance / raise a supply -/
+
+def Eff.debits (e : Addr) : Eff → Bool
+  | .xfer src _ _ _ => src == e
+  | .mint _ _ _ => false
+  | .burn m _ _ => m == e
+def Eff.mints (d : Denom) : Eff → Bool
+  | .mint _ d' _ => d' == d
+  | _ => false
+def Eff.burns (d : Denom) : Eff → Bool
+  | .burn _ d' _ => d' == d
+  | _ => false
+
+theorem outflow_zero_of_no_debit (es : List Eff) (e : Addr) (h : es.all (fun x => !x.debits e) = true) (d : Denom) :
+    outflow es e d = 0 := by
+  induction es with
+  | nil => rfl
+  | cons x xs ih =>
+    simp only [List.all_cons, Bool.and_eq_true] at h
+    simp only [outflow, sumBy_cons] at *
+    rw [ih h.2]
+    cases x with
+    | xfer src dst d' amt =>
+      have : e ≠ src := by
+        intro he; subst he; simp [Eff.debits] at h
+      simp [Eff.outflow, this]
+    | mint m d' amt => simp [Eff.outflow]
+    | burn m d' amt =>
+      have : e ≠ m := by
+        intro he; subst he; simp [Eff.debits] at h
+      simp [Eff.outflow, this]
+
+theorem minted_zero_of_no_mint (es : List Eff) (d : Denom) (h : es.all (fun x => !x.mints d) = true) :
+    minted es d = 0 := by
+  induction es with
+  | nil => rfl
+  | cons x xs ih =>
+    simp only [List.all_cons, Bool.and_eq_true] at h
+    simp only [minted, sumBy_cons] at *
+    rw [ih h.2]
+    cases x with
+    | xfer src dst d' amt => simp [Eff.minted]
+    | mint m d' amt =>
+      have : d ≠ d' := by
+        intro he; subst he; simp [Eff.mints] at h
+      simp [Eff.minted, this]
+    | burn m d' amt => simp [Eff.minted]
+
+theorem burned_zero_of_no_burn (es : List Eff) (d : Denom) (h : es.all (fun x => !x.burns d) = true) :
+    burned es d = 0 := by
+  induction es with
+  | nil => rfl
+  | cons x xs ih =>
+    simp only [List.all_cons, Bool.and_eq_true] at h
+    simp only [burned, sumBy_cons] at *
+    rw [ih h.2]
+    cases x with
+    | xfer src dst d' amt => simp [Eff.burned]
+    | mint m d' amt => simp [Eff.burned]
+    | burn m d' amt =>
+      have : d ≠ d' := by
+        intro he; subst he; simp [Eff.burns] at h
+      simp [Eff.burned, this]
+
+/-- an account that no effect debits does not lose anything -/
+theorem no_debit_mono (b b' : Bank) (es : List Eff) (e : Addr) (h : b.applyAll es = .ok b')
+    (hn : es.all (fun x => !x.debits e) = true) (d : Denom) : b.get e d ≤ b'.get e d := by
+  have f := (Bank.applyAll_flow es b b' h e d).1
+  rw [outflow_zero_of_no_debit es e hn d] at f
+  omega
+
+/-- a denomination nobody mints does not grow in supply -/
+theorem no_mint_supply_le (b b' : Bank) (es : List Eff) (d : Denom) (h : b.applyAll es = .ok b')
+    (hn : es.all (fun x => !x.mints d) = true) : b'.supply d ≤ b.supply d := by
+  have f := (Bank.applyAll_flow es b b' h "" d).2
+  rw [minted_zero_of_no_mint es d hn] at f
+  omega
+
+theorem no_mint_burn_supply_eq (b b' : Bank) (es : List Eff) (d : Denom) (h : b.applyAll es = .ok b')
+    (hm : es.all (fun x => !x.mints d) = true) (hb : es.all (fun x => !x.burns d) = true) :
+    b'.supply d = b.supply d := by
+  have f := (Bank.applyAll_flow es b b' h "" d).2
+  rw [minted_zero_of_no_mint es d hm, burned_zero_of_no_burn es d hb] at f
+  omega
+
 /-- total of a denomination over a list of accounts -/
 def totalOver (b : Bank) (A : List Addr) (d : Denom) : Nat := sumBy (fun a => b.get a d) A
 
